@@ -40,7 +40,7 @@ TIERS = {
     "thorough": {"shards": 16, "cases": 30000, "timeout": 3000},
 }
 FLOORS = {
-    "quick": {"counts": {"words_checked": 60000, "relative_moves_right_after_context_exit": 80, "lines_checked": 30000, "end_to_end_checks": 20000,
+    "quick": {"counts": {"tiny_displacements": 300, "words_checked": 60000, "relative_moves_right_after_context_exit": 80, "lines_checked": 30000, "end_to_end_checks": 20000,
                          "coupled_axis_lines": 5000, "relative_lines": 8000}, "keys": 300},
     "thorough": {"counts": {"words_checked": 2500000, "lines_checked": 1000000}, "keys": 600},
 }
@@ -258,6 +258,14 @@ def run_case(ctx, col, case):
                 for a in "xyz":
                     if rng.random() < 0.5:
                         kw[a] = rng.uniform(-10, 10) if rel else rng.uniform(-40, 40)
+                if rng.random() < 0.1:
+                    # a very small displacement along one axis (1e-4.5 .. 1e-2): under a rotation or shear the
+                    # coupled axes change by even less, yet far more than the output resolution at dp >= 5
+                    a = rng.choice("xyz")
+                    d = rng.choice([-1, 1]) * 10 ** rng.uniform(-4.5, -2.0)
+                    here = {"x": g.position.x, "y": g.position.y, "z": g.position.z}[a]
+                    kw = {a: d if rel else (0.0 if here is None else here) + d}
+                    col.count("tiny_displacements")
                 if rng.random() < 0.2:
                     kw["F"] = 1200
                 req = {a.upper(): v for a, v in kw.items() if a in "xyz"}
